@@ -1,6 +1,6 @@
 (* C08: the obligations of Properties.v, proved (statement for statement) *)
 From OlaBase Require Import Bytes.
-From C08 Require Import Gen Model Spec ListLemmas SacnTrack SacnProofs SacnThms ArtProofs ArtDistinct SeqInv TextSpec TextThm TextCheck WireProofs.
+From C08 Require Import Gen Model Spec ListLemmas SacnTrack SacnProofs SacnThms ArtProofs ArtDistinct SeqInv TextSpec TextThm TextCheck WireProofs ShadowThm ArtText ArtStep.
 Local Open Scope N_scope.
 
 Lemma c08_consts_l :
@@ -174,4 +174,19 @@ Lemma c08_sacn_wire_l :
 Proof.
   split; [exact wire_preview|]. split; [exact wire_term|]. split; [exact wire_cases | exact wire_ignore_preview].
 Qed.
+
+Lemma c08_sacn_refines_text_l :
+  forall (c : cfg) (h : hist),
+    cguards c 0 init_cst h ->
+    forall v, In v (cverdicts c init_cst h) -> v = 0 \/ v = 1 \/ v = 2.
+Proof. exact refines_text_exact. Qed.
+
+Lemma c08_artnet_refines_text_l :
+  forall (c : acfg) (h : list (N * apkt)) (now : N) (k : apkt),
+    aguards 0 h -> alast 0 h <= now -> k_addr k <> 0 ->
+    let port := arun c init_aport h in
+    let G := snd (arun2 c init_aport [] h) in
+    (snd (atext_step c now G k) = None <-> snd (art_handle c now port k) = false) /\
+    (forall out, snd (atext_step c now G k) = Some out -> ap_buf (fst (art_handle c now port k)) = out).
+Proof. exact artnet_refines. Qed.
 
